@@ -547,6 +547,12 @@ type modLoc struct {
 	region  *SliceV  // all elements of this slice
 	mapRow  bool
 	allObjs bool // every object (whole arrays)
+	mapVals *mapValsLoc
+}
+
+type mapValsLoc struct {
+	has, val Term
+	ks       Sort
 }
 
 func (v *FnVerifier) modLocs(fc *FuncContract, env *TEnv) []modLoc {
@@ -629,6 +635,17 @@ func (v *FnVerifier) modLocsOf(cl *Clause, env *TEnv) []modLoc {
 						arrRef{valN + ".l", ArrSort(SRef, ArrSort(ks, SInt)), nil}, arrRef{valN + ".c", ArrSort(SRef, ArrSort(ks, SInt)), nil})
 				}
 				out = append(out, modLoc{arrs: arrs, ref: base.V.(Term), mapRow: true})
+			case "mapvals":
+				// mapvals(m): every field of every object that is a value of map m (m: map[K]*Struct)
+				base := env.tr(x.Args[0])
+				mt, ok := base.T.Underlying().(*types.Map)
+				if !ok || structOf(mt.Elem()) == nil {
+					sfail("mapvals wants a map to struct pointers")
+				}
+				hasN, valN, ks, _, _ := mapArrays(base.T)
+				hasA := v.arr(env.st, hasN, ArrSort(SRef, ArrSort(ks, SBool)))
+				valA := v.arr(env.st, valN, ArrSort(SRef, ArrSort(ks, SRef)))
+				out = append(out, modLoc{arrs: v.structArrays(deref(mt.Elem()), nil), mapVals: &mapValsLoc{has: Select(hasA, base.V.(Term)), val: Select(valA, base.V.(Term)), ks: ks}})
 			case "allof":
 				// allof("pkg.Type"): every field of every object of that type
 				name := x.Args[0].(EStr).V
@@ -636,7 +653,13 @@ func (v *FnVerifier) modLocsOf(cl *Clause, env *TEnv) []modLoc {
 				if gt == nil {
 					sfail("allof: unknown type %s", name)
 				}
-				out = append(out, modLoc{arrs: v.structArrays(gt, nil), allObjs: true})
+				if structOf(gt) != nil {
+					out = append(out, modLoc{arrs: v.structArrays(gt, nil), allObjs: true})
+				} else if sl, ok := gt.Underlying().(*types.Slice); ok {
+					out = append(out, modLoc{arrs: v.cellArraysOf(sl.Elem()), allObjs: true})
+				} else {
+					out = append(out, modLoc{arrs: v.cellArraysOf(gt), allObjs: true})
+				}
 			default:
 				sfail("%s:%d: modifies: unknown form %s", cl.File, cl.Line, m)
 			}
@@ -652,6 +675,12 @@ func inLoc(ml modLoc, ar arrRef, r string) string {
 	switch {
 	case ml.allObjs:
 		return "true"
+	case ml.mapVals != nil:
+		base := r
+		for i := 0; i < len(ar.path); i++ {
+			base = "(parent " + base + ")"
+		}
+		return fmt.Sprintf("(and (= %s %s) (exists ((k!mv %s)) (and (select %s k!mv) (= (select %s k!mv) %s))))", r, pathRef(base, ar.path), ml.mapVals.ks, ml.mapVals.has.S, ml.mapVals.val.S, base)
 	case ml.region != nil:
 		base := r
 		for i := 0; i < len(ar.path); i++ {
@@ -693,7 +722,7 @@ func (v *FnVerifier) applyModifies(fc *FuncContract, pre *TEnv, st *State) *Stat
 				groups[ar.name] = g
 				order = append(order, ar.name)
 			}
-			g.locs = append(g.locs, modLoc{ref: ml.ref, region: ml.region, allObjs: ml.allObjs, arrs: []arrRef{ar}})
+			g.locs = append(g.locs, modLoc{ref: ml.ref, region: ml.region, allObjs: ml.allObjs, mapVals: ml.mapVals, arrs: []arrRef{ar}})
 		}
 	}
 	for _, name := range order {
@@ -725,7 +754,7 @@ func (v *FnVerifier) frameGoals(entryEnv *TEnv, final *State) map[string]Term {
 			continue
 		}
 		for _, ar := range ml.arrs {
-			byArr[ar.name] = append(byArr[ar.name], modLoc{ref: ml.ref, region: ml.region, allObjs: ml.allObjs, arrs: []arrRef{ar}})
+			byArr[ar.name] = append(byArr[ar.name], modLoc{ref: ml.ref, region: ml.region, allObjs: ml.allObjs, mapVals: ml.mapVals, arrs: []arrRef{ar}})
 		}
 	}
 	goals := map[string]Term{}
